@@ -6,7 +6,7 @@ use crate::gen::Gen;
 /// "duplicate keys" for any two *distinct* entries (it compares dangling element pointers). While this
 /// is `true` the table generators do not emit that one combination (zero-sized layout,
 /// `get_many_mut_any` with two or more different requests on a non-empty table), so that runs stay green.
-pub const AVOID_F2: bool = true;
+pub const AVOID_F2: bool = false;
 
 fn tbl_new_elem(g: &mut Gen, k: u64) -> String {
     let id = g.id();
@@ -535,6 +535,14 @@ pub fn next_entry(g: &mut Gen, r: &dyn Runner) -> String {
         if let Some(op) = ent_steer(g, r) {
             return op;
         }
+    }
+    if g.rng.chance(1, 30) {
+        // a user closure panicking inside replace_entry_with
+        let k = match g.present_key(r, "a") {
+            Some(k) if g.rng.chance(3, 4) => k,
+            _ => g.key(),
+        };
+        return format!("a entry_replace_panic {} {}", k, g.id());
     }
     if g.rng.chance(6, 10) {
         let tgt = if g.rng.chance(1, 8) { "b" } else { "a" };
